@@ -3,6 +3,7 @@ package props
 import (
 	"fmt"
 	"go/token"
+	"go/types"
 	"sort"
 	"strings"
 
@@ -298,6 +299,13 @@ func C04(c *core.Ctx) {
 		}
 	}
 
+	// ---- R4.5 stream framing makes progress: the compaction test and the "too much data"
+	// test on the number of pending bytes leave no value for which the buffer is neither
+	// compacted nor the stream rejected (one-sided comparison contradiction)
+	if sf := c.Fn("R4.5", "fw/face", "", "readTlvStream"); sf != nil {
+		c04StreamProgress(c, sf)
+	}
+
 	// ---- R4.3 generated parse loop: announced length ≤ what is left of the reader
 	nGuard, badGuard := 0, ""
 	for _, m := range models {
@@ -318,6 +326,7 @@ func C04(c *core.Ctx) {
 			continue
 		}
 		lv := reads[1]
+		var signedOperand ssa.Value
 		fits := &core.Atom{Name: "l<=remaining", Match: func(cond ssa.Value) (int, int) {
 			op, x, y, ok := core.Cmp(cond)
 			if !ok {
@@ -341,6 +350,10 @@ func C04(c *core.Ctx) {
 			}
 			if !isM(b.X, "Length") || !isM(b.Y, "Pos") {
 				return 0, 0
+			}
+			// a comparison in the signed domain bounds nothing for l ≥ 2^63 (negative)
+			if bt, ok := x.Type().Underlying().(*types.Basic); ok && bt.Info()&types.IsUnsigned == 0 {
+				signedOperand = x
 			}
 			switch op {
 			case token.GTR:
@@ -373,6 +386,11 @@ func C04(c *core.Ctx) {
 		g := core.Gate(fn, eff, pos(fits))
 		if !(g.OK && g.PassEdges > 0) {
 			badGuard = strings.TrimPrefix(m.Pkg.PkgPath, core.ModPath+"/") + "." + m.Name
+		} else if signedOperand != nil {
+			g2 := core.Gate(fn, eff, pos(core.AtomNonNegative(signedOperand)))
+			if !(g2.OK && g2.PassEdges > 0) {
+				badGuard = strings.TrimPrefix(m.Pkg.PkgPath, core.ModPath+"/") + "." + m.Name + " (the guard compares the length after conversion to a signed integer and no ≥ 0 test dominates: a length ≥ 2^63 is negative and passes)"
+			}
 		}
 	}
 	c.Decide(badGuard == "" && nGuard >= 70, "R4.3", "generated-parser-length-fits-reader", "-", fmt.Sprintf("in %d generated parsers every field reader / allocation is behind l ≤ reader.Length()-reader.Pos()", nGuard), "generated parser of "+badGuard+" runs field readers (allocations of l bytes, make(enc.Name, l/2+1), Skip, Delegate) without first refusing an element whose announced length exceeds the rest of its reader: a 13-byte frame announcing a 2^40-byte name makes the parser allocate until the process dies")
@@ -439,4 +457,178 @@ func describeOperand(s core.Sink) string {
 		}
 	}
 	return strings.Join(out, "+")
+}
+
+// c04StreamProgress decides R4.5 on the stream receive loop.
+func c04StreamProgress(c *core.Ctx, fn *ssa.Function) {
+	p := c.P
+	// the compaction: copy(buf, buf[low:high])
+	var cp *ssa.Call
+	var low, high ssa.Value
+	core.Instrs(fn, func(in ssa.Instruction) {
+		cl, ok := isBuiltinCall(in, "copy")
+		if !ok {
+			return
+		}
+		if sl, ok := core.Strip(cl.Call.Args[1]).(*ssa.Slice); ok && sl.Low != nil && sl.High != nil && core.Same(sl.X, cl.Call.Args[0]) {
+			cp, low, high = cl, sl.Low, sl.High
+		}
+	})
+	if cp == nil {
+		c.Und("R4.5", "stream-compaction", p.Pos(fn.Pos()), "no copy(buf, buf[low:high]) compaction found in readTlvStream")
+		return
+	}
+	family := func(v ssa.Value) map[ssa.Value]bool {
+		set := map[ssa.Value]bool{}
+		var walk func(v ssa.Value)
+		walk = func(v ssa.Value) {
+			v = core.StripConv(v)
+			if v == nil || set[v] {
+				return
+			}
+			set[v] = true
+			switch x := v.(type) {
+			case *ssa.Phi:
+				for _, e := range x.Edges {
+					walk(e)
+				}
+			case *ssa.BinOp:
+				if x.Op == token.ADD || x.Op == token.SUB {
+					walk(x.X)
+				}
+			}
+		}
+		walk(v)
+		return set
+	}
+	hi, lo := family(high), family(low)
+	isPending := func(v ssa.Value) bool {
+		b, ok := core.StripConv(v).(*ssa.BinOp)
+		return ok && b.Op == token.SUB && hi[core.StripConv(b.X)] && lo[core.StripConv(b.Y)] && !lo[core.StripConv(b.X)]
+	}
+	// unconditional compaction on every iteration of the receive loop?
+	outer := enclosingLoops(cp.Block())
+	if len(outer) > 0 && everyIterationPasses(fn, outer[len(outer)-1], func(x ssa.Instruction) bool { return x == ssa.Instruction(cp) }) {
+		c.Ok("R4.5", "stream-compaction-covers-pending", c.Pos(cp), "the unread bytes are moved to the front on every iteration of the receive loop")
+		return
+	}
+	// pending OP const comparisons: (op, K, true-successor)
+	type cmp struct {
+		in      *ssa.If
+		op      token.Token
+		k       int64
+		isConst bool
+	}
+	var cmps []cmp
+	for _, b := range fn.Blocks {
+		if len(b.Instrs) == 0 {
+			continue
+		}
+		ifi, ok := b.Instrs[len(b.Instrs)-1].(*ssa.If)
+		if !ok {
+			continue
+		}
+		op, x, y, ok := core.Cmp(ifi.Cond)
+		if !ok {
+			continue
+		}
+		if isPending(y) {
+			x, y = y, x
+			op = core.Swap(op)
+		}
+		if !isPending(x) {
+			continue
+		}
+		k, isC := core.ConstInt(y)
+		cmps = append(cmps, cmp{ifi, op, k, isC})
+	}
+	// compaction gate: the nearest branch the copy is control-dependent on (walking up the
+	// dominator tree inside the receive loop) must be pending < K or pending <= K
+	shiftMax, haveShift := int64(0), false
+	var loopH *ssa.BasicBlock
+	if len(outer) > 0 {
+		loopH = outer[len(outer)-1]
+	}
+	for b := cp.Block(); b != nil && b != loopH; b = b.Idom() {
+		d := b.Idom()
+		if d == nil || len(b.Preds) != 1 || b.Preds[0] != d {
+			continue // a join point: not gated by d alone
+		}
+		ifi, ok := d.Instrs[len(d.Instrs)-1].(*ssa.If)
+		if !ok {
+			continue
+		}
+		for _, q := range cmps {
+			if q.in != ifi || !q.isConst {
+				continue
+			}
+			op := q.op
+			if d.Succs[1] == b {
+				op = core.Negate(op)
+			}
+			switch op {
+			case token.LSS:
+				shiftMax, haveShift = q.k-1, true
+			case token.LEQ:
+				shiftMax, haveShift = q.k, true
+			}
+		}
+		break
+	}
+	// rejection: pending > K / >= K whose asserted edge returns an error
+	rejectMin, haveReject := int64(0), false
+	returnsErr := func(b *ssa.BasicBlock) bool {
+		for i := 0; i < 3 && b != nil; i++ {
+			if r, ok := b.Instrs[len(b.Instrs)-1].(*ssa.Return); ok {
+				return len(r.Results) == 1 && !core.IsNilConst(r.Results[0])
+			}
+			if len(b.Succs) != 1 {
+				return false
+			}
+			b = b.Succs[0]
+		}
+		return false
+	}
+	nonConstReject := false
+	for _, q := range cmps {
+		tb, fb := q.in.Block().Succs[0], q.in.Block().Succs[1]
+		op := q.op
+		switch {
+		case returnsErr(tb):
+		case returnsErr(fb):
+			op = core.Negate(op)
+		default:
+			continue
+		}
+		if !q.isConst {
+			nonConstReject = true
+			continue
+		}
+		var m int64
+		switch op {
+		case token.GTR:
+			m = q.k + 1
+		case token.GEQ:
+			m = q.k
+		default:
+			continue
+		}
+		if !haveReject || m < rejectMin {
+			rejectMin, haveReject = m, true
+		}
+	}
+	switch {
+	case !haveShift:
+		c.Viol("R4.5", "stream-compaction-covers-pending", c.Pos(cp), "the compaction of the stream receive buffer is conditional, but not on a test pending-bytes < / <= constant: cannot show that a full buffer is always compacted or the stream rejected (Read would be called with no room, forever)")
+	case !haveReject:
+		why := "no test rejects a stream whose pending bytes exceed a constant"
+		if nonConstReject {
+			why = "the test that rejects too much pending data does not compare with a constant"
+		}
+		c.Viol("R4.5", "stream-compaction-covers-pending", c.Pos(cp), fmt.Sprintf("%s, while the buffer is compacted only up to %d pending bytes: with more pending bytes and the buffer full, Read is called with an empty slice on every iteration (the receive loop spins)", why, shiftMax))
+	default:
+		c.Decide(shiftMax+1 >= rejectMin, "R4.5", "stream-compaction-covers-pending", c.Pos(cp),
+			fmt.Sprintf("pending ≤ %d is compacted, pending ≥ %d is rejected: no value in between", shiftMax, rejectMin),
+			fmt.Sprintf("the receive buffer is compacted only while pending ≤ %d but the stream is rejected only from pending ≥ %d: for the values in between with the buffer full, Read is called with an empty slice on every iteration (the receive loop spins)", shiftMax, rejectMin))
+	}
 }
